@@ -264,7 +264,7 @@ func runC16(ctx *Ctx) *Report {
 	}
 	if ctx.Thorough {
 		for _, f := range forestsUpTo(3, []string{"a", "b.go"}) {
-			docs = append(docs, string(spell(f, coveringSpellings()[len(docs)%24])))
+			docs = append(docs, string(spell(f, coveringSpellings()[len(docs)%len(coveringSpellings())])))
 		}
 	}
 	for di, doc := range docs {
